@@ -47,6 +47,7 @@ DEFOP(parse) {
     Rng vr((uint64_t)st.A(0)), sr((uint64_t)st.A(1));
     GenOpts go = profile_opts(world_profile(w));
     go.allow_raw = false; go.allow_nonfinite = false;
+    if (w.wide) go.wide_den = 5;
     MVal *v = gen_value(vr, go);
     SpellOpts so; so.bom = sr.chance(1, 10); so.ws = (int)sr.below(3); so.escapes = sr.chance(2, 3); so.numspell = sr.chance(2, 3);
     std::string text = serialize_value(v, sr, so);
